@@ -25,6 +25,8 @@ from ..core import Ctx
 from ..leanbridge import Driver
 
 LEG = "kd_sp"
+MODELLED_KINDS = {"map", "map_stateful", "iter_plain", "iter_readme", "iter_ds_state", "iter_inplace", "iter_bump",
+                  "iter_it_state", "iter_selfiter", "iter_ds_eager"}
 LEAN_MODULES = ["TorchDataVerif.Props.SP"]
 THEOREMS_C03 = ["TDV.SP.stream_eq_ref_batch", "TDV.SP.stream_eq_ref_bare", "TDV.SP.stream_eq_ref_epochs", "TDV.SP.refMap_total",
                 "TDV.SP.stream_eq_ref_iter", "TDV.SP.stream_eq_ref_iter_one", "TDV.SP.stream_eq_ref_iter_epochs",
@@ -140,7 +142,7 @@ def model_request(cfg, ops, stream: Optional[Stream]) -> Dict[str, Any]:
     dl = bool(cfg.get("drop_last", False))
     req: Dict[str, Any] = {
         "m": "sp",
-        "ds": {"kind": "iter_ds_state" if kind == "iter_inplace" else kind, "n": n, "fail": sorted(cfg.get("fail", []))},
+        "ds": {"kind": "iter_ds_state" if kind in ("iter_inplace", "iter_bump") else kind, "n": n, "fail": sorted(cfg.get("fail", []))},
         "bs": cfg["bs"],
         "drop_last": dl and samp != "batch_sampler" and cfg["bs"] is not None,
         "collate_fail": sorted(cfg.get("collate_fail") or []),
@@ -372,6 +374,9 @@ def run_kd(ctx: Ctx, n_quick: int = 1500, n_thorough: int = 12000):
     for i in range(n):
         cfg = sdl.gen_cfg(rng, max_w=0)
         cfg.pop("interval", None)
+        if cfg["kind"] not in MODELLED_KINDS:  # a dataset kind added to harness.sdl after this model was written
+            ctx.count("kd_sp:unmodelled_kind:" + cfg["kind"])
+            continue
         gen_faults(rng, cfg)
         hist = gen_history(rng, cfg)
         ops, obs, req, real = one_case(cfg, hist)
